@@ -417,7 +417,7 @@ def idle_observations(mode, h):
         rset = RNAMES
     else:
         extra = RNAMES[zlib.crc32(repr(h).encode()) % len(RNAMES)]
-        rset = list(dict.fromkeys(['Html', 'Markdown', extra]))
+        rset = list(dict.fromkeys(['Html', extra]))
     for d in PNAMES:
         obs.append(('P', d))
         for r in rset:
@@ -846,7 +846,7 @@ def run(tier, seed, workers):
                    '-> for each of the %d probes a bare-parse dump + markdown() with each of the 11 renderers '
                    '(%d observations) for histories of length <= 2; length 3%s: the same minus PygmentsRenderer '
                    'on the 2 probes whose code blocks have no language (guess_lexer costs more than everything '
-                   'else together); length %s: bare-parse dump + Html + Markdown + one rotating renderer '
+                   'else together); length %s: bare-parse dump + Html + one rotating renderer '
                    '(up to %d observations); in context -> render of each probe with the entered renderer. '
                    'BREADTH: %d short histories covering the full alphabet once ([F] for every fault kind x raise '
                    'site x context x position of either token list (%d), [enter R, render d(, exit)] for all 11 '
@@ -854,7 +854,7 @@ def run(tier, seed, workers):
                    'histories of length 5..41 over the full alphabet; fresh-interpreter baselines: %d '
                    'subprocesses, one per observation'
                    % (n, n_exh, n, Q_IDLE, Q_CTX, len(faults), len(PNAMES), len(PNAMES) * (1 + len(RNAMES)),
-                      '' if quick else ' and 4', '4' if quick else '5 and 6', len(PNAMES) * 4,
+                      '' if quick else ' and 4', '4' if quick else '5 and 6', len(PNAMES) * 3,
                       len(br), len(faults), len(DNAMES), n_rand, len(BASE))),
         'rule': ('a case is one history run in its own forked child followed by all observations; it is '
                  'non-trivial if the history contains at least one parse/render/faulty-parse operation '
